@@ -42,11 +42,17 @@ def step (s : S) (line : String) : S × String :=
         -- `esl-sfetch --index f` leaves `f.ssi` behind: later fetches of the case may rely on it
         let files := match tool, argv with
           | "esl-sfetch", ["--index", f] => (f ++ ".ssi", some []) :: s.files
-          | _, _ => s.files
+          | _, _ => (filesWritten tool argv (lookupFile s)).map (fun p => (p.1, some p.2)) ++ s.files
         ({ s with last := some out.toList, files := files }, "rc=0 out=" ++ hexOrDash (charsToBytes out.toList))
       | none => ({ s with last := none }, "nopred")
     | _, _ => (s, "bad-op")
-  | "cat" :: _ => (s, "nopred")
+  | "cat" :: _ =>
+    match arg? ws "name" with
+    | some n =>
+      match lookupFile s n with
+      | some c => (s, "ok " ++ hexOrDash (charsToBytes c))
+      | none => (s, "nopred")
+    | none => (s, "bad-op")
   | _ => (s, "bad-op")
 
 def main : IO Unit := runDriver ({} : S) step
